@@ -1554,6 +1554,17 @@ def mecab_ids(ctx):
                 sw = option_switch(b)
                 if sw is not None and err_only(sw[1]) and fa.fn.locals[t["dest"]["l"]]["ty"].count("Vec<") >= 1:
                     gaps += 1
+                elif sw is None and fa.fn.locals[t["dest"]["l"]]["ty"].count("Vec<") >= 1:
+                    # `map.get(&id).ok_or_else(|| error)?`: None becomes Err, and `?` returns it
+                    dl = t["dest"]["l"]
+                    for ob_, ot_ in fa.calls():
+                        on_ = {strip_generics(x).rsplit("::", 1)[-1] for x in callee_paths(ot_)}
+                        if on_ & {"ok_or", "ok_or_else"} and ot_["args"] and \
+                                (op_place(ot_["args"][0]) or {}).get("l") == dl and not (op_place(ot_["args"][0]) or {}).get("p"):
+                            rl = ot_["dest"]["l"]
+                            if any("Try>::branch" in " ".join(callee_paths(bt_)) and bt_["args"] and
+                                   (op_place(bt_["args"][0]) or {}).get("l") == rl for bb_, bt_ in fa.calls()):
+                                gaps += 1
     ctx.ob("MECABIDS", "%s|dense-ids-from-1" % p, loops == 2, loc,
            "both id lists are written for id in 1..(number of ids read)" if loops == 2 else
            "%d of the two output loops run over 1..len(ids): an id is skipped, id 0 is written, or "
